@@ -93,6 +93,11 @@ class Engine:
             info = self.functions[fr.contract.target]
             info['trivial'] = info.get('trivial', 0) + 1
             return
+        if f'{kind}:{label}' in fr.contract.stand_in and expect == 'valid':
+            info = self.functions[fr.contract.target]
+            info.setdefault('stand_in', {})
+            info['stand_in'][f'{kind}:{label}'] = info['stand_in'].get(f'{kind}:{label}', 0) + 1
+            return
         if using is not None:
             # explicit hypothesis selection (sound: a subset): the quantifier-free facts plus the named ones
             hyps = [h for h in state.pc if not st._has_quantifier(h)]
